@@ -326,7 +326,36 @@ def _b_env(it):
     return {"obj": obj, "self": selfp, "parset": Opaque("parset"), "t_init": 2000.0, "comp_indices": {}, "A": Opaque("A"), "PAR": Opaque("par"), "DPAR": Opaque("denom_par"), "NOCOMPS": []}
 
 
+class _NS:
+    pass
+
+
+def _prep_target(env):
+    """replay: real Characteristic objects and a stand-in ParameterSet whose entries answer with the ghost values"""
+    import numpy as np
+    import atomica.model as am
+
+    def par(v, yf, myf):
+        p = _NS()
+        p.interpolate = lambda t, pop_name=None, v=v: np.array([v], dtype=float)
+        p.y_factor = {"pop": yf}
+        p.meta_y_factor = myf
+        return p
+
+    denom = object.__new__(am.Characteristic)
+    denom.id, denom.includes, denom.denominator, denom._vals = ("pop", "denominator"), [], None, None
+    obj = object.__new__(am.Characteristic)
+    obj.id, obj.includes, obj.denominator, obj._vals = ("pop", "charac"), [], denom, None
+    parset = _NS()
+    parset.pars = {"charac": par(env.get("V", 0.0), env.get("YF", 1.0), env.get("MYF", 1.0)), "denominator": par(env.get("DV", 0.0), env.get("DYF", 1.0), env.get("DMYF", 1.0))}
+    pop = _NS()
+    pop.name = "pop"
+    n = max(1, len(env.get("b", [0.0])))
+    env.update(obj=obj, parset=parset, self=pop, t_init=2000.0, comp_indices={}, A=np.zeros((n, 1)), b=np.array(env.get("b", [0.0]), dtype=float), Characteristic=am.Characteristic)
+
+
 CONTRACTS["model:Population.initialize_compartments#target_of_fraction"] = dict(
+    replay_prepare=_prep_target,
     schema=schema, fragment={"iter": "enumerate(b_objs)"}, make_env=_b_env,
     params={"b": "arr1", "i": "int"},
     ghost_params={"V": "real", "YF": "real", "MYF": "real", "DV": "real", "DYF": "real", "DMYF": "real"},
